@@ -323,6 +323,15 @@ Definition argmax_masked (coeffs : list N) (mask : list bool) : nat :=
 
 Definition fix_mask (fc fpa feps : bool) : list bool := [fc; fc; fpa; feps].
 
+(* ellipse.py:400-407: the fix flags a fit_image call works with.  A request can come through the
+   call's keywords (kc, kpa, keps) or be carried by the geometry (EllipseGeometry(..., fix_*=True) or
+   its .fix attribute, [gfix]).  If ANY keyword is set the keyword array REPLACES the geometry's flags
+   (also un-fixing what only the geometry had fixed: "this overrides the geometry instance for good");
+   with all keywords False the geometry's flags are left alone.  All three keywords set: fit_image
+   returns the empty list before fitting (fix_all of the schedule model). *)
+Definition effective_fix (kc kpa keps : bool) (gfix : list bool) : list bool :=
+  if kc || kpa || keps then fix_mask kc kpa keps else gfix.
+
 Definition pymin (a b : N) : N := if ltb N b a then b else a.          (* builtin min(a, b) *)
 
 (* per-iteration observation: harmonic amplitudes coeffs[1:5] and what the numerics
@@ -452,6 +461,7 @@ Inductive case :=
          (exp_res : zres) (exp_calls : list zcall)
 | CPolar (x0 y0 pa : fl) (pts : list (fl * fl)) (asin_s asin_v : list (fl * fl))
          (exp_s exp_v : list (fl * fl))
+| CFix (kc kpa keps : bool) (gfix : list bool) (seen : list (list bool))
 | CStep (fc fpa feps : bool) (g : fl * fl * fl * fl) (coeffs : list fl)
         (k : Z) (harm : fl) (gc gn : fl * fl * fl * fl).
 
@@ -513,6 +523,9 @@ Definition check_case (c : case) : bool :=
       list_eqb2 pair_eqb (map (polar_s (Ftab ts) (F x0) (F y0) (F pa)) ps) es
       && (let '(r, a) := polar_v (Ftab tv) (F x0) (F y0) (F pa) (map fst ps) (map snd ps) in
           list_eqb2 pair_eqb (combine r a) ev)
+  | CFix kc kpa keps gfix seen =>
+      (* geometry.fix at every fitter call and on every returned isophote *)
+      forallb (fun f => list_eqb2 Bool.eqb f (effective_fix kc kpa keps gfix)) seen
   | CStep fc fpa feps g coeffs k harm gc gn =>
       let k' := argmax_masked Fnum (map F coeffs) (fix_mask fc fpa feps) in
       (Z.of_nat k' =? k)%Z
@@ -535,6 +548,8 @@ Definition model_out (c : case) :=
       ((4%Z, []), [],
        map (fun p => let '(r, a) := polar_s (Ftab ts) (F x0) (F y0) (F pa) p in (Prim2SF r, Prim2SF a)) ps,
        0%nat)
+  | CFix kc kpa keps gfix seen =>
+      ((6%Z, []), [], [], length (filter (fun b : bool => b) (effective_fix kc kpa keps gfix)))
   | CStep fc fpa feps g coeffs k harm gc gn =>
       ((5%Z, []), [], [], argmax_masked Fnum (map F coeffs) (fix_mask fc fpa feps))
   end.
